@@ -16,7 +16,7 @@ LEVEL_TEXT = {
  'C03': 'PARTIAL. Coq model of the lock discipline of memmap.go/mem/file.go (sections between lock operations) with theorems over all schedules (no deadlock, no unlock error, lockset, quiescent consistency on the single-section fragment); the Go memory model and scheduler are outside the model: supported by a -race stress harness in child processes, a lock-sequence table extracted from the source each run, and a post-quiescence consistency sweep.',
  'C04': 'PARTIAL. Coq theorem: every history of a machine whose calls take effect in one atomic step of the sequential model is linearizable (any threads, any schedule); multi-section methods are treated by explicit section abstractions. Tie/search: concurrent histories of the real MemMapFs are recorded and searched for a linearization against the EXTRACTED sequential model (Wing-Gong in OCaml) plus direct checks of the exactly-one-winner and torn-read clauses.',
  'C05': 'Coq theorems for ANY base satisfying contract K and any overlay: every call CopyOnWriteFs/UnionFile/copy-up makes on the base is one a ReadOnlyFs would forward, hence the base view is frozen over all op sequences and flag words; K proved for MemMapFs. Tie: cow(mem,mem) differential against the model; oracle: deep snapshot of the base before/after every step incl. all 4096 combinations of 12 O_* bits.',
- 'C06': 'Coq theorems over arbitrary inner filesystems: lookup is overlay-then-base, merged listing is duplicate-free union with overlay winning, pages partition the listing, Readdir(-1) consumes it; copy-up/write-read-back proved for MemMapFs layers under stated shape hypotheses (_partial). Tie + oracle: union view compared with overlay-over-base computed from direct dumps of both layers after every step, listings in pages.',
+ 'C06': 'Coq theorems over arbitrary inner filesystems: lookup is overlay-then-base, merged listing is duplicate-free union with overlay winning, pages partition the listing, Readdir(-1) consumes it; copy-up (any depth of missing overlay directories, any spelling), write/read-back against the C02 byte array (all flag words, all handle-method sequences) and failed-call-leaves-view-unchanged (all Fs and handle methods) proved for MemMapFs layers in every state satisfying the C01 invariant; one excluded corner refuted with a replayed witness (base directory carrying bytes). Tie + oracle: union view compared with overlay-over-base computed from direct dumps of both layers after every step, listings in pages.',
  'C07': 'Coq theorems for ANY source with contract K (proved for MemMapFs, inherited through BasePathFs/ReadOnlyFs): mutators return EPERM without consulting the source, reads are transparent, the source view is frozen over all op sequences and all integer flag values. Tie: differential on ro(mem), ro(bp(mem)), ro(ro(mem)); oracle: deep source snapshot per step, flag sweep.',
  'C08': 'Coq theorems for every root and every name string: RealPath results lie segment-wise below the cleaned root (incl. nested roots, Symlink/Lstat/Readlink names, httpDir targets), the wrapper makes one forwarded call whose names are all confined, escaping names are refused without touching the source. Tie: exhaustive RealPath/httpDir comparison on short names, op sequences with prefix-sharing siblings; oracle: everything outside the root unchanged and never leaked.',
  'C09': 'Coq theorems: for in-root names each BasePathFs op equals the source op with Clean(Join(D,name)), Name() is the path relative to D, stacking equals the joined root (for names/roots that never step up; counterexample otherwise), FullBaseFsPath is the joined path. Tie + oracle: twin MemMapFs with joined paths, per-step equality and equal final snapshots.',
